@@ -4,8 +4,9 @@
 (* ($CASE_FILE: ndjson, one case per line, produced from LSyntaxGen's      *)
 (* export).  TLC enumerates every layout with at most MaxSites insertions  *)
 (* (exhaustive: single-site at every boundary; -simulate: multi-site       *)
-(* samples), checks the model theorem on each, and exports each as a       *)
-(* placement <<"PLACE", json>> for the conformance harness.                *)
+(* samples; incl. NestParens: 2-3 layers of redundant parentheses with     *)
+(* noise between the layers), checks the model theorem on each, exports    *)
+(* each as a placement <<"PLACE", json>> for the conformance harness.      *)
 (***************************************************************************)
 EXTENDS LLex
 
